@@ -50,7 +50,7 @@ def main():
         demo = [f for f in os.listdir(d) if f.startswith('demo')]
         demo_res = 'no demo'
         if demo:
-            r = sh('cd %s && /venv/bin/python %s/%s' % (wt, d, demo[0]), env=env, timeout=900)
+            r = sh('cd %s && /venv/bin/python %s/%s' % (wt, d, demo[0]), env=dict(env, PYTHONPATH=wt), timeout=900)
             demo_res = 'fails (as intended)' if r.returncode else 'PASSES (change not effective?)'
         res = {}
         for p in props:
